@@ -297,6 +297,50 @@ func (ex *Exec) branchAt(c *Term, fr *Frame, at ssa.Instruction) bool {
 	return r
 }
 
+// determine asks the solver which sides of c are feasible under the path
+// condition: 0 = only true, 1 = only false, 2 = both. The answer is recorded in
+// the decision vector so that replays of a prefix do not ask again.
+func (ex *Exec) determine(c *Term) int {
+	if ex.replaying() {
+		d := ex.prefix[ex.didx]
+		ex.record(d)
+		return d
+	}
+	fT := ex.sol.Check(false, c) != Unsat
+	fF := ex.sol.Check(false, ex.ts.Not(c)) != Unsat
+	d := 2
+	switch {
+	case fT && !fF:
+		d = 0
+	case !fT && fF:
+		d = 1
+	case !fT && !fF:
+		ex.end(OutInfeasible, "path condition unsatisfiable at branch")
+	}
+	ex.record(d)
+	return d
+}
+
+// forkBoth forks on c when both sides are already known to be feasible.
+func (ex *Exec) forkBoth(c *Term) bool {
+	if ex.replaying() {
+		d := ex.prefix[ex.didx]
+		ex.record(d)
+		if d == 0 {
+			ex.assume(c)
+		} else {
+			ex.assume(ex.ts.Not(c))
+		}
+		return d == 0
+	}
+	base := append([]int(nil), ex.decisions...)
+	ex.newWork = append(ex.newWork, append(base, 1))
+	ex.res.Forks++
+	ex.record(0)
+	ex.assume(c)
+	return true
+}
+
 func (ex *Exec) chooseN(n int, what string) int {
 	if n == 1 {
 		return 0
